@@ -1064,3 +1064,99 @@ def origins(fn, expr, depth=0, seen=None, through_calls=True):
         for c in kids(n):
             stack.append(c)
     return out
+
+
+# --------------------------------------------------------------------------- constant folding of pure expressions
+class NotConst(Exception):
+    pass
+
+
+def ceval(n, env, types=None):
+    """fold a side-effect free expression given values for some variables (env: decl id or name -> int).
+    Used to *decode tables* that the source encodes as expressions over a tiny enumerable domain
+    (a comparison result in {-1,0,1}, a 2-bit matrix index, an hour 0..24); it never interprets statements."""
+    if n is None:
+        raise NotConst("none")
+    k = n.get("k")
+    if k in CASTS or k == "CompoundLiteralExpr":
+        v = ceval(n["c"][0], env, types)
+        if types is not None and n.get("t") is not None and k in CASTS and n.get("ck") == "IntegralCast":
+            t = types[n["t"]]
+            if t.get("int") and t.get("w"):
+                w = t["w"]
+                v &= (1 << w) - 1
+                if t.get("sg") and v >= 1 << (w - 1):
+                    v -= 1 << w
+        return v
+    if k == "DeclRefExpr":
+        if n.get("d") in env:
+            return env[n["d"]]
+        if n.get("n") in env:
+            return env[n["n"]]
+        if "v" in n:
+            return n["v"]
+        raise NotConst("free variable %s" % n.get("n"))
+    if k == "CallExpr" and n.get("callee") == "__builtin_expect":
+        return ceval(n["c"][1], env, types)
+    if "v" in n and k in ("IntegerLiteral", "CharacterLiteral", "UnaryExprOrTypeTraitExpr"):
+        return n["v"]
+    if k == "UnaryOperator":
+        v = ceval(n["c"][0], env, types)
+        op = n.get("op")
+        if op == "!":
+            return int(not v)
+        if op == "-":
+            return -v
+        if op == "~":
+            return ~v
+        if op == "+":
+            return v
+        raise NotConst("unary " + str(op))
+    if k == "BinaryOperator":
+        op = n.get("op")
+        if op == "&&":
+            return int(bool(ceval(n["c"][0], env, types)) and bool(ceval(n["c"][1], env, types)))
+        if op == "||":
+            return int(bool(ceval(n["c"][0], env, types)) or bool(ceval(n["c"][1], env, types)))
+        a, b = ceval(n["c"][0], env, types), ceval(n["c"][1], env, types)
+        if op == "+":
+            r = a + b
+        elif op == "-":
+            r = a - b
+        elif op == "*":
+            r = a * b
+        elif op == "/":
+            if b == 0:
+                raise NotConst("div0")
+            r = abs(a) // abs(b) * (1 if (a >= 0) == (b >= 0) else -1)
+        elif op == "%":
+            if b == 0:
+                raise NotConst("div0")
+            r = abs(a) % abs(b) * (1 if a >= 0 else -1)
+        elif op == "<<":
+            r = a << b
+        elif op == ">>":
+            r = a >> b
+        elif op == "&":
+            r = a & b
+        elif op == "|":
+            r = a | b
+        elif op == "^":
+            r = a ^ b
+        elif op in ("==", "!=", "<", ">", "<=", ">="):
+            r = int({"==": a == b, "!=": a != b, "<": a < b, ">": a > b, "<=": a <= b, ">=": a >= b}[op])
+        elif op == ",":
+            r = b
+        else:
+            raise NotConst("binary " + str(op))
+        if types is not None and n.get("t") is not None:
+            t = types[n["t"]]
+            if t.get("int") and t.get("w") and op not in ("==", "!=", "<", ">", "<=", ">="):
+                w = t["w"]
+                r &= (1 << w) - 1
+                if t.get("sg") and r >= 1 << (w - 1):
+                    r -= 1 << w
+        return r
+    if k == "ConditionalOperator":
+        return ceval(n["c"][1], env, types) if ceval(n["c"][0], env, types) else ceval(n["c"][2], env, types)
+    raise NotConst(k)
